@@ -32,16 +32,21 @@ def make_battery(cx, kind, noise):
     cap = cx.real("capacity", lo=0, lo_open=True)
     charge = cx.real("charge", lo=0)
     cx.assume(le(charge, cap))
+    # the state reached by an arbitrary history: constructed with some other initial charge, then brought to
+    # `charge` through the public reset(); so current charge and initial charge are independent
+    init0 = cx.real("init_charge", lo=0)
+    cx.assume(le(init0, cap))
     if kind == "ideal":
         maxp = cx.real("max_power", lo=0)
-        b = B.Battery(cap, charge, maxp)
+        b = B.Battery(cap, init0, maxp)
         nl = 0
     else:
         maxp = cx.real("max_power", lo=0, lo_open=True)
         ts = cx.real("transition_soc", lo=0, hi=1, hi_open=True)
         nl = cx.real("noise_level", lo=0, lo_open=True) if noise else 0
-        b = B.Linear2StageBattery(cap, charge, maxp, noise_level=nl, transition_soc=ts,
+        b = B.Linear2StageBattery(cap, init0, maxp, noise_level=nl, transition_soc=ts,
                                   charge_calculation="stepwise" if kind == "stepwise" else "continuous")
+    b.reset(charge)
     return b, cap, charge, maxp
 
 
